@@ -520,8 +520,18 @@ def r3(ctx, chk):
     rets = [x for x in iter_own_stmts(sd.node.body) if isinstance(x, ast.Return)]
     ok = bool(rets)
     for r in rets:
-        name = ast.unparse(r.value) if r.value is not None else None
-        guarded = name is None
+        v = r.value
+        if v is None or (isinstance(v, ast.Constant) and v.value is None):
+            continue
+        # the list handed back: a local, or one new element per element of a local (as long as the local, so empty only if it is)
+        if isinstance(v, ast.ListComp) and len(v.generators) == 1 and not v.generators[0].ifs and isinstance(v.generators[0].iter, ast.Name):
+            name = v.generators[0].iter.id
+        elif isinstance(v, ast.Name):
+            name = v.id
+        else:
+            chk.error(rule, "search_dates line %d returns `%s`: not a form this rule can follow" % (r.lineno, " ".join(ast.unparse(v).split())[:60]))
+            continue
+        guarded = False
         for test, pol in enclosing_tests(sd.node, r):
             for atom, p in conjuncts(test, pol):
                 if p and ast.unparse(atom) == name:
